@@ -91,6 +91,8 @@ func init() {
 			"Permutation testing is replaced by the order-independence argument (O5) plus last-writer-wins by range order (O4).",
 		Assumptions: []string{"option constructors are the exported functions returning util.Option", "specification tables in checker/rule_c19.go encode 'the setting it names'"},
 		Mutants: []Mutant{
+			{ID: "C19-unchecked-assert", Desc: "WithReturnChar asserts the channel type without the ok form (panics on every other object it is offered to)", Rule: "C19/asserts-checked",
+				Edits: []Edit{{File: "driver/options/channel.go", Old: "\t\tc, ok := o.(*channel.Channel)\n\n\t\tif !ok {\n\t\t\treturn util.ErrIgnoredOption\n\t\t}\n\n\t\tc.ReturnChar = []byte(s)\n", New: "\t\tif _, isDriver := o.(*channel.Channel); !isDriver && o == nil {\n\t\t\treturn util.ErrIgnoredOption\n\t\t}\n\n\t\tc := o.(*channel.Channel)\n\n\t\tc.ReturnChar = []byte(s)\n"}}},
 			{ID: "C19-resolve-before-assertion", Desc: "WithSSHConfigFile resolves the path before looking at the object", Rule: "C19/ignored-first",
 				Edits: []Edit{{File: "driver/options/transportssh.go", Old: "func WithSSHConfigFile(s string) util.Option {\n\treturn func(o interface{}) error {\n\t\ta, ok := o.(*transport.SSHArgs)\n\n\t\tif !ok {\n\t\t\treturn util.ErrIgnoredOption\n\t\t}\n\n\t\tsshF, err := util.ResolveFilePath(s)\n\t\tif err != nil {\n\t\t\treturn util.ErrFileNotFoundError\n\t\t}\n", New: "func WithSSHConfigFile(s string) util.Option {\n\treturn func(o interface{}) error {\n\t\tsshF, err := util.ResolveFilePath(s)\n\t\tif err != nil {\n\t\t\treturn util.ErrFileNotFoundError\n\t\t}\n\n\t\ta, ok := o.(*transport.SSHArgs)\n\n\t\tif !ok {\n\t\t\treturn util.ErrIgnoredOption\n\t\t}\n"}}},
 			{ID: "C19-platform-rewraps-option-error", Desc: "the platform constructor prints the driver constructor's error instead of wrapping it", Rule: "C19/constructors-relay",
@@ -128,6 +130,8 @@ func init() {
 func runC19(c *Ctx, r *Report) {
 	r.Rule("C19/definition-decoder", "platform definitions are decoded by yaml.v3 only (the option table asserts the Go types that decoder produces)", 1)
 	checkDefinitionDecoder(c, r, "C19/definition-decoder")
+	r.Rule("C19/asserts-checked", "every type assertion of the library is comma-ok or part of a type switch (an option or definition value of an unexpected type is an error, never a panic)", 1)
+	checkNoUncheckedAssert(c, r, "C19/asserts-checked")
 	r.Rule("C19/no-shared-defaults", "no constructor copies maps or lock pointers out of a package-level value (options applied to one object never show up in another)", 1)
 	checkNoSharedDefaults(c, r, "C19/no-shared-defaults")
 	r.Rule("C19/settings-writers", "a setting an option can store is otherwise written only by constructors and by its listed run-time owner", 5)
